@@ -365,6 +365,8 @@ func TestComp(t *testing.T) {
 			outs, err = compFailAction(c)
 		case "milter-replycode":
 			outs, err = compMilter(c)
+		case "remote-nomx":
+			outs, err = compRemoteNoMX(c)
 		case "milter-wire":
 			outs, err = compMilterWire(c)
 		case "smtpconn-reply":
